@@ -921,6 +921,14 @@ func (c *Client) processPubrel(id packet.ID) error {
 		once.Do(func() {
 			c.backend.Log(MessageAcknowledged, c, nil, &publish.Message, nil)
 
+			// remove publish from session before the pubcomp is released,
+			// otherwise a retransmitted pubrel would publish it again
+			err := c.session.DeletePacket(session.Incoming, id)
+			if err != nil {
+				_ = c.die(SessionError, err)
+				return
+			}
+
 			// queue pubcomp
 			select {
 			case c.ackQueue <- pubcomp:
